@@ -398,6 +398,11 @@ package zygo
 // the sweep also asks for nil: where a swept function dereferences what a callee or a map handed
 // back (a field access, a load, an interface method call), the value must be provably non-nil there
 //@ nilsweep C01
+// mdef: every target slot is filled with a symbol before the value is compiled; the bind
+// instruction hands each one to BindSymbol, which dereferences it
+//@ func (*Generator).GenerateMultiDef
+//@ C01 loop 0 invariant 0 <= i && i <= nsym && len(syms) == nsym && forall(k, 0 <= k && k < i ==> syms[k] != nil)
+//@ C01 assert every-target-is-a-symbol @before call Generate[0]: forall(k, 0 <= k && k < len(syms) ==> syms[k] != nil)
 //@ sweep C01 (*SexpHashSelector).AssignToSelection, (*SexpHashSelector).RHS, (*SexpSymbol).AssignToSelection, (*SexpSymbol).RHS
 
 // Fields set once by their constructors: existing objects keep them across any call.
